@@ -87,3 +87,150 @@ pub fn flow_geometry(stat_interval_ms: u32) -> (u64, u64, &'static str) {
     }
     (i, i, "private-single")
 }
+
+// ------------------------------------------------------------------ circuit breaker
+
+#[derive(Clone, Copy, Debug, PartialEq, Eq, Hash)]
+pub enum BState {
+    Closed,
+    HalfOpen,
+    Open,
+}
+
+#[derive(Clone, Copy, Debug, PartialEq, Eq, Hash)]
+pub enum BStrategy {
+    SlowRatio,
+    ErrorRatio,
+    ErrorCount,
+}
+
+#[derive(Clone, Debug)]
+pub struct BreakerSpec {
+    pub strategy: BStrategy,
+    pub retry_timeout_ms: u64,
+    pub min_request_amount: u64,
+    pub stat_interval_ms: u64,
+    pub bucket_count: u64,
+    pub max_allowed_rt_ms: u64,
+    pub threshold: f64,
+}
+
+impl BreakerSpec {
+    /// bucket count actually used: the documented fallback is a single bucket
+    /// when the count is 0 or does not divide the interval
+    pub fn buckets(&self) -> u64 {
+        if self.bucket_count == 0 || self.stat_interval_ms % self.bucket_count != 0 {
+            1
+        } else {
+            self.bucket_count
+        }
+    }
+    pub fn bl(&self) -> u64 {
+        self.stat_interval_ms / self.buckets()
+    }
+}
+
+/// (kind, prev) of a listener notification
+#[derive(Clone, Copy, Debug, PartialEq, Eq, Hash)]
+pub enum BEvent {
+    ToOpen(BState),
+    ToHalfOpen(BState),
+    ToClosed(BState),
+}
+
+/// The documented Closed / Open / Half-Open machine.
+#[derive(Clone, Debug)]
+pub struct BreakerModel {
+    pub spec: BreakerSpec,
+    pub state: BState,
+    pub next_retry: u64,
+    /// bucket start -> (target, total)
+    pub buckets: std::collections::BTreeMap<u64, (u64, u64)>,
+    pub events: Vec<BEvent>,
+}
+
+impl BreakerModel {
+    pub fn new(spec: BreakerSpec) -> Self {
+        BreakerModel {
+            spec,
+            state: BState::Closed,
+            next_retry: 0,
+            buckets: Default::default(),
+            events: Vec::new(),
+        }
+    }
+    fn window_sums(&self, now: u64) -> (u64, u64) {
+        let bl = self.spec.bl();
+        let hi = now - now % bl;
+        let lo = (hi + bl).saturating_sub(self.spec.stat_interval_ms);
+        let mut t = (0, 0);
+        for (_, (a, b)) in self.buckets.range(lo..=hi) {
+            t.0 += a;
+            t.1 += b;
+        }
+        t
+    }
+    /// a request arrives at `now`; true = this breaker lets it through
+    /// (when it returns true from Open, this request is the probe)
+    pub fn try_pass(&mut self, now: u64) -> (bool, bool) {
+        match self.state {
+            BState::Closed => (true, false),
+            BState::HalfOpen => (false, false),
+            BState::Open => {
+                if now >= self.next_retry {
+                    self.state = BState::HalfOpen;
+                    self.events.push(BEvent::ToHalfOpen(BState::Open));
+                    (true, true)
+                } else {
+                    (false, false)
+                }
+            }
+        }
+    }
+    /// the probe admitted by this breaker ended up rejected by somebody else
+    pub fn probe_blocked(&mut self) {
+        if self.state == BState::HalfOpen {
+            self.state = BState::Open;
+            self.events.push(BEvent::ToOpen(BState::HalfOpen));
+        }
+    }
+    /// an admitted request completes at `now` with response time rt and error flag
+    pub fn complete(&mut self, now: u64, rt: u64, err: bool) {
+        let bad = match self.spec.strategy {
+            BStrategy::SlowRatio => rt > self.spec.max_allowed_rt_ms,
+            _ => err,
+        };
+        let bl = self.spec.bl();
+        let b = self.buckets.entry(now - now % bl).or_insert((0, 0));
+        if bad {
+            b.0 += 1;
+        }
+        b.1 += 1;
+        let (target, total) = self.window_sums(now);
+        match self.state {
+            BState::HalfOpen => {
+                if bad {
+                    self.state = BState::Open;
+                    self.next_retry = now + self.spec.retry_timeout_ms;
+                    self.events.push(BEvent::ToOpen(BState::HalfOpen));
+                } else {
+                    self.state = BState::Closed;
+                    self.events.push(BEvent::ToClosed(BState::HalfOpen));
+                    self.buckets.clear();
+                }
+            }
+            BState::Closed => {
+                let met = match self.spec.strategy {
+                    BStrategy::ErrorCount => target >= self.spec.threshold as u64,
+                    _ => target as f64 / total as f64 >= self.spec.threshold,
+                };
+                if total >= self.spec.min_request_amount && met {
+                    self.state = BState::Open;
+                    self.next_retry = now + self.spec.retry_timeout_ms;
+                    self.events.push(BEvent::ToOpen(BState::Closed));
+                }
+            }
+            BState::Open => {}
+        }
+    }
+}
